@@ -18,6 +18,8 @@ def check(ctx):
     G.type_params_decl(ctx, "C05.1")
     G.param_match_predicate(ctx, "C05.2")
     G.resolver_entry_flags(ctx, "C05.3")
+    with ctx.only(lambda k: k.endswith(".path") and ("Composite" in k or "Variant" in k)):
+        G.resolver_arms(ctx, "C05.3")       # a reference to a generic type carries the arguments of THAT type (after Cow unwrapping), in declaration order
     with ctx.only(lambda k: k.startswith("field-closure")):
         G.field_closures(ctx, "C05.3")
     G.parent_params_visitor(ctx, "C05.3")
@@ -28,3 +30,8 @@ def check(ctx):
         G.syn_arms(ctx, "C05.3", strict_alloc=False)
     with ctx.only(lambda k: k.startswith("keep-first/vacant") or k.startswith("keep-first/key")):
         G.keep_first_or_error(ctx, "C05.4")
+    # "all instantiations of one definition yield one item" needs the shape comparator to recognise them as one shape: a generic parameter position
+    # compares equal only through the parameter-index machinery (GenericsList), whose definitions are pinned as leaves
+    from . import c03
+    with ctx.only(lambda k: k.startswith("ground/same-generic")):
+        c03.comparator(ctx, "C05.5")
